@@ -343,7 +343,9 @@ class Peer:
             hlen = 16 + struct.unpack(e + 'I', data[12:16])[0]
             hlen += (-hlen) % 8
             raw, data = data[:hlen + blen], data[hlen + blen:]
-            out.append(message.parseMessage(raw, None))
+            pm = message.parseMessage(raw, None)
+            pm._wire = raw
+            out.append(pm)
         return out
 
     def call_bus(self, member, sig=None, body=None):
@@ -368,7 +370,10 @@ def history(seed, steps):
         if p.name in names_seen:
             return 'unique name %s reused' % p.name
         names_seen.add(p.name)
-    queues = {}          # well-known name -> claimants in arrival order, head = owner (requests without flags: waiters queue)
+    # the name table follows C13's reference model (request flags: 1 allow replacement, 2 replace existing, 4 do not queue)
+    from .c13 import Model
+    mdl = Model()
+    queues = mdl.q       # well-known name -> claimants, head = owner
 
     class Owners:
         def __contains__(self, n): return n in queues
@@ -393,34 +398,31 @@ def history(seed, steps):
             elif op == 'disconnect' and len(live) > 2:
                 a.alive = False
                 a.proto.connectionLost(None)
-                for n in list(queues):
-                    if a in queues[n]:
-                        queues[n].remove(a)
-                        if not queues[n]:
-                            del queues[n]
+                mdl.disconnect(a)
                 rules.pop(a, None)
             elif op == 'name':
                 n = 'org.e.N%d' % rnd.randrange(3)
-                q = queues.get(n)
-                want = 1 if not q else 4 if q[0] is a else 2
-                got = a.call_bus('RequestName', 'su', [n, 0]).body[0]
-                if got != want:
-                    return 'step %d: RequestName(%s) by %s answered %r, expected %r (claimants %r)' % (step, n, a.name, got, want, [x.name for x in q or []])
-                if not q:
-                    queues[n] = [a]
-                elif a not in q:
-                    q.append(a)
+                flags = rnd.choice([0, 0, 1, 1, 2, 3, 4, 5, 6, 7])
+                before = [x.name for x in queues.get(n, [])]
+                mdl.alt = None
+                want = mdl.request(a, n, flags)
+                got = a.call_bus('RequestName', 'su', [n, flags]).body[0]
+                if got not in want:
+                    return 'step %d: RequestName(%s, flags %d) by %s answered %r, expected %r (claimants before %r)' % (step, n, flags, a.name, got, sorted(want), before)
+                if mdl.alt is not None:
+                    # the statement leaves open whether a replaced owner waits behind the new one: take what the bus did
+                    listed = a.call_bus('ListQueuedOwners', 's', [n]).body[0]
+                    if listed == [x.name for x in mdl.alt]:
+                        queues[n] = list(mdl.alt)
+                    elif listed != [x.name for x in queues[n]]:
+                        return 'step %d: after %s replaced the owner of %s the claimants are %r (before %r)' % (step, a.name, n, listed, before)
             elif op == 'release':
                 n = 'org.e.N%d' % rnd.randrange(3)
-                q = queues.get(n)
-                want = 2 if not q else 1 if q[0] is a else 3
+                before = [x.name for x in queues.get(n, [])]
+                want = mdl.release(a, n)
                 got = a.call_bus('ReleaseName', 's', [n]).body[0]
-                if got != want:
-                    return 'step %d: ReleaseName(%s) by %s answered %r, expected %r (claimants %r)' % (step, n, a.name, got, want, [x.name for x in q or []])
-                if q and a in q:
-                    q.remove(a)
-                    if not q:
-                        del queues[n]
+                if got not in want:
+                    return 'step %d: ReleaseName(%s) by %s answered %r, expected %r (claimants before %r)' % (step, n, a.name, got, sorted(want), before)
             elif op == 'match':
                 iface = 'org.e.I%d' % rnd.randrange(2)
                 if iface not in rules.get(a, ()):          # one rule per (connection, interface): copies per rule are C12's subject
@@ -445,9 +447,11 @@ def history(seed, steps):
                 if kind == 0:
                     m = message.MethodCallMessage('/o', 'M', interface='org.e.I0', destination=dest, signature='s', body=body)
                 elif kind == 1:
-                    m = message.MethodReturnMessage(77, destination=dest, signature='s', body=body)
+                    rs = rnd.choice([77, 1, 2**31 - 1, 2**31, 2**32 - 1])       # any serial a caller may have used (UINT32)
+                    m = message.MethodReturnMessage(rs, destination=dest, signature='s', body=body)
                 elif kind == 2:
-                    m = message.ErrorMessage('org.e.Err', 77, destination=dest, signature='s', body=body)
+                    rs = rnd.choice([77, 1, 2**31 - 1, 2**31, 2**32 - 1])
+                    m = message.ErrorMessage('org.e.Err', rs, destination=dest, signature='s', body=body)
                 else:
                     m = message.SignalMessage('/o', 'S', 'org.e.I0', destination=dest, signature='s', body=body)
                 m.sender = ':1.999'                       # forged
@@ -464,6 +468,11 @@ def history(seed, steps):
                     for x in got:
                         if x.sender != a.name or x.serial != m.serial or x._messageType != m._messageType:
                             return 'step %d: delivered with sender %r serial %r (true sender %s, serial %d)' % (step, x.sender, x.serial, a.name, m.serial)
+                        if kind in (1, 2) and x.reply_serial != rs:
+                            return 'step %d: a reply to serial %d delivered as a reply to %r' % (step, rs, x.reply_serial)
+                        # unchanged except for the sender: the reply-serial header keeps its wire type (UINT32)
+                        if kind in (1, 2) and b'\x05\x01u\x00' not in x._wire[:x._wire.index(b'payload')]:
+                            return 'step %d: the reply serial of a forwarded reply is not written as UINT32: %s' % (step, x._wire[:64].hex())
             elif op == 'bcast':
                 counter[0] += 1
                 iface = 'org.e.I%d' % rnd.randrange(2)
